@@ -131,7 +131,8 @@ func mkRef(doc, ref string) *term {
 func spellings(id string, all bool) []*term {
 	out := []*term{mkTerm(id, "", false, "", -1), mkTerm(id, "", true, "", -1)}
 	if all {
-		out = append(out, mkTerm(id, "-only", false, "", -1), mkTerm(id, "-or-later", false, "", -1), mkTerm(id, "", false, "", 0), mkTerm(id, "", true, "", 1))
+		out = append(out, mkTerm(id, "-only", false, "", -1), mkTerm(id, "-or-later", false, "", -1), mkTerm(id, "", false, "", 0), mkTerm(id, "", true, "", 1),
+			mkTerm(id, "-only", true, "", -1), mkTerm(id, "-or-later", true, "", -1))
 	}
 	var ok []*term
 	for _, t := range out {
@@ -841,6 +842,40 @@ func init() {
 			// the same question with other entries around the deciding one (an unrelated id that sorts first, one that
 			// sorts last, a sibling of the family): the verdict about `b` must not depend on what else is allowed
 			if rng.Intn(scale(3, 1)) == 0 {
+				// the same question with one and the same WITH exception on both sides
+				if e := pick(tblExceptions); true {
+					r := implSat(b+" WITH "+e, []string{a + "+ WITH " + e})
+					res.Evaluations++
+					count("with_exception_pairs")
+					if r.err == nil && r.panicv == nil && r.ok != want {
+						fail(failure{Stream: "oracle", What: what + " (the same WITH exception on both sides)", Case: &kase{Expr: b + " WITH " + e, ExprHex: hx(b + " WITH " + e), Allowed: []string{a + "+ WITH " + e}}, Impl: fmt.Sprint(r.ok), Expected: fmt.Sprint(want)})
+					}
+					r = implSat(a+"+ WITH "+e, []string{b + " WITH " + e})
+					_, va1 := versionOf(a)
+					_, vb1 := versionOf(b)
+					fa1, _ := versionOf(a)
+					fb1, _ := versionOf(b)
+					want1 := fa1 == fb1 && va1.ok && vb1.ok && cmpVersion(va1, vb1) <= 0 || a == b
+					if r.err == nil && r.panicv == nil && r.ok != want1 {
+						fail(failure{Stream: "oracle", What: "'+' on the expression side, the same WITH exception on both sides: " + what, Case: &kase{Expr: a + "+ WITH " + e, ExprHex: hx(a + "+ WITH " + e), Allowed: []string{b + " WITH " + e}}, Impl: fmt.Sprint(r.ok), Expected: fmt.Sprint(want1)})
+					}
+				}
+				// the '+' entry beside its own plain form and a later-sorting entry
+				later := []string{}
+				for _, d := range []string{"Zlib", "zlib-acknowledgement", "xpp", "curl", "Zed"} {
+					if d != a && d != b && implMatch(b, d) == 0 {
+						later = append(later, d)
+					}
+				}
+				for _, l := range [][]string{{a, a + "+", later[0]}, {a + "+", a, later[0], later[1]}} {
+					r := implSat(b, l)
+					res.Evaluations++
+					wantL := want || a == b
+					if r.err == nil && r.panicv == nil && r.ok != wantL {
+						fail(failure{Stream: "oracle", What: what + " (the '+' entry stands beside its plain form)", Case: &kase{Expr: b, ExprHex: hx(b), Allowed: l}, Impl: fmt.Sprint(r.ok), Expected: fmt.Sprint(wantL)})
+						break
+					}
+				}
 				// decoys: unrelated ids that do not match `b` (or `a+`) on their own
 				var dec []string
 				for _, d := range []string{"0BSD", "AAL", "Zlib", "MIT", "curl", "ISC"} {
@@ -895,6 +930,35 @@ func init() {
 					_, vb := versionOf(b)
 					check(a, b, cmpVersion(va, vb) <= 0, "'+' does not reach exactly the same-or-later versions of the family")
 					count("within_family_pairs")
+				}
+			}
+		}
+		// ids whose texts look like versions of one family that the table does NOT cover (Python-2.0 / Python-2.0.1, …):
+		// '+' gives no reach at all there, whatever the version numbers look like
+		byKey := map[string][]string{}
+		for _, id := range all {
+			f, v := versionOf(id)
+			if v.ok && !covered[f] {
+				byKey[f] = append(byKey[f], id)
+			}
+		}
+		for _, ids := range byKey {
+			if len(ids) < 2 {
+				continue
+			}
+			for _, a := range ids {
+				for _, b := range ids {
+					if a == b {
+						continue
+					}
+					for _, pr := range [][2]string{{b, a + "+"}, {a + "+", b}, {a + "+", b + "+"}, {a, b}} {
+						r := implSat(pr[0], []string{pr[1]})
+						res.Evaluations++
+						count("uncovered_family_pairs")
+						if r.panicv != nil || r.err != nil || r.ok {
+							fail(failure{Stream: "oracle", What: "ids of a family the table does not cover: '+' must not reach (and nothing may fail)", Case: &kase{Expr: pr[0], ExprHex: hx(pr[0]), Allowed: []string{pr[1]}}, Impl: r.String(), Expected: "false"})
+						}
+					}
 				}
 			}
 		}
